@@ -132,6 +132,10 @@ class Link:
         self.drop_writes = False
         self.history = bytearray()  # everything ever written (byte mode), for decoding by monitors
         self.msg_history = []
+        self.cut_after = None  # fault injection: cut the connection once this many bytes (messages) were delivered
+        self.cut_after_mode = 'eof'
+        self.on_cut_after = None
+        self.delivered_msgs = 0
 
     # sender side
     def write(self, data: bytes):
@@ -159,11 +163,20 @@ class Link:
             return 0
         if n is None or n > len(self.buf):
             n = len(self.buf)
+        trip = False
+        if self.cut_after is not None and self.delivered + n >= self.cut_after:
+            n = max(0, self.cut_after - self.delivered)
+            trip = True
         if n > 0:
             chunk = bytes(self.buf[:n])
             del self.buf[:n]
             self.delivered += n
             self.sink.feed(chunk)
+        if trip:
+            self.cut_after = None
+            if self.on_cut_after is not None:
+                self.on_cut_after(self.cut_after_mode)
+            return n + 1
         if self.sender_closed and not self.buf and not self.eof_sent:
             self.eof_sent = True
             self.sink.feed_eof()
@@ -178,10 +191,26 @@ class Link:
             return 0
         count = 0
         while self.msgs and (k is None or count < k):
+            if self.cut_after is not None and self.delivered_msgs >= self.cut_after:
+                self.cut_after = None
+                if self.on_cut_after is not None:
+                    self.on_cut_after(self.cut_after_mode)
+                return count + 1
             msg = self.msgs.popleft()
             self.delivered += len(msg)
+            self.delivered_msgs += 1
             count += 1
             await self.sink.feed_message(msg)
+            if self.cut_after is not None and self.delivered_msgs >= self.cut_after:
+                self.cut_after = None
+                if self.on_cut_after is not None:
+                    self.on_cut_after(self.cut_after_mode)
+                return count + 1
+        if self.cut_after == 0:
+            self.cut_after = None
+            if self.on_cut_after is not None:
+                self.on_cut_after(self.cut_after_mode)
+            return count + 1
         return count
 
     def cut(self, mode):
@@ -475,6 +504,17 @@ class Conn:
 
     def unblock(self, side):
         self.writer[side].unblock()
+
+    def arm_cut(self, side, after, mode):
+        l = self.link[side]
+        l.cut_after = after
+        l.cut_after_mode = mode
+
+        def fire(m):
+            self.world.ev('net', 'cut', mode=m, link=side, after=after)
+            self.cut(m)
+
+        l.on_cut_after = fire
 
     def cut(self, mode='eof', fail_writes=True):
         """Both directions fail at once (the link is cut)."""
